@@ -24,7 +24,7 @@ class P:
     prop = "C10"
     rule = ("LEX of: all sequences of <=3 symbols over a 47-symbol alphabet with one representative per tokenizer "
             "character class (quick; <=4 over a sub-alphabet in thorough), every built-in operator prefix followed by "
-            "every class, random multi-byte strings, and strings lexed under randomly extended operator sets "
+            "every class, random multi-byte strings, programs written without blanks (a word / string / number, one or two one-character tokens, a number directly followed by a sign and a number), and strings lexed under randomly extended operator sets "
             "(fresh process each). Non-trivial = more than one character and distinct input text.")
     trusted_extra = ["hook verif_hooks::tokenize drives the private Tokenizer to EOF (add-only, cfg-guarded)"]
     assumptions = ["inputs are valid UTF-8 (guaranteed by &str)",
@@ -64,6 +64,18 @@ class P:
         cases += flow.mk_cases("opchain", ["LEX:" + hx(s) for s in chain])
         nrand = 3000 if tier == "quick" else 200000
         cases += flow.mk_cases("rand", ["LEX:" + hx(gens.random_string(rng, 14)) for _ in range(nrand)])
+        # programs written WITHOUT blanks: a word / string / number, one or two one-character tokens, a number directly followed
+        # by a sign and another number (a number may contain `e`/`E` and a sign only after that letter: what the token BEFORE the
+        # number ended with must not matter)
+        tight = []
+        for w in ("price", "e", "E", "rate", "SCALE", "true", "x", "10", "1e", "'se'", "\"E\"", "in", "note", "2E"):
+            for mid in ("*", "/", "(", ",", "[", "?", ":", "-", "+", "*(", "=[", "!", ")", "]", "}", ";", "%", "<", "&"):
+                for d in ("2", "20", "0", "2.5", "2e", "9"):
+                    for sign in "+-":
+                        tight.append("%s%s%s%s1" % (w, mid, d, sign))
+        tight += ["price*2-1", "(rate)*3+1", "[size,1-0]", "true?1-0:2", "f(e,1+x)", "SCALE/4-2", "cost*2-1", "price * 2-1", "price*20-1", "price+=2-1", "2-1",
+                  "e+1", "1e+1", "1e5", "a1e+1", "1-e", "1e-e", "x=1e;2-1", "'e'2-1"]
+        cases += flow.mk_cases("tight", ["LEX:" + hx(t_) for t_ in tight])
         # extended operator sets: fresh process per history
         nh = 60 if tier == "quick" else 3000
         hist = []
@@ -181,6 +193,16 @@ class P:
                         if body != word or body not in ops:
                             return "violates", "word operator %r is not the whole word %r / not registered" % (body, word)
                 pos = e
+            if term == "ERR":
+                # a lexical error must have a cause: where the tokens stop, a digit run that IS a plain decimal of at most 20 digits
+                # (scanned as the documented rule says: digits, dots, e/E, and a sign only right after e/E) is no cause
+                tail = b[pos:].decode("utf-8", errors="replace").lstrip(" \t\r\n")
+                if tail[:1].isdigit():
+                    j = 1
+                    while j < len(tail) and (tail[j].isdigit() or tail[j] in ".eE" or (tail[j] in "+-" and tail[j - 1] in "eE")): j += 1
+                    run = tail[:j]
+                    if re.fullmatch(r"[0-9]+(\.[0-9]*)?", run) and sum(ch.isdigit() for ch in run) <= 20:
+                        return "violates", "the well-formed number %r is rejected in %r" % (run, s)
             if term == "EOF":
                 tail = b[pos:].decode("utf-8", errors="replace")
                 if any(ch not in WS for ch in tail):
